@@ -26,7 +26,7 @@ LEVEL_TEXT = ("Explicit-state search over histories of assemblies run in one pro
               "Each unit test builds one Program in isolation.")
 LEVEL_NOTE = ("If every event maps the initial fingerprint to itself the reachable state set is {s0} and the result extends to histories of "
               "any length over this alphabet (closure). A changed fingerprint alone is not a violation - only a behavioural difference of "
-              "a probe is. Object addresses in messages are normalised.")
+              "a probe is. Messages are compared verbatim (only the line at which the interpreter's recursion limit strikes is normalised).")
 TECHNIQUE = "explicit-state BFS over assembly histories with module-state fingerprints; probes compared with a fresh-process baseline"
 RULE = ("state = fingerprint of module-level state after a history; transition = one more assembly. All histories up to the depth bound "
         "are executed, each followed by every probe twice. non-trivial = history contains a failing, .map, HiROM or name-colliding "
@@ -105,6 +105,7 @@ PROBES = {
     "p-deep-nesting": ("*=0x018000\n" + "{\n" * 400 + "nop\n" + "}\n" * 400 + "rts\n", "low_rom"),
     # a file name that is not an identifier: the names of its symbols are the same in every process
     "p-incbin-odd-name": ("*=0x018000\n.incbin 'odd-name file.bin'\nafter_odd:\n.db 1\n", "low_rom"),
+    "p-text-without-table": ("*=0x018000\n.db 1\n.text 'ab'\n", "low_rom"),
     "p-file-api-default": ("n0:\n.db 1\njmp.w n0\nn1:\n.dl n1\n", "file:none:ips"),
 }
 PROBE_NAMES = list(PROBES)
@@ -123,7 +124,7 @@ def norm(text):
     text = str(text)
     if "RecursionError" in text or "maximum recursion depth" in text:
         return "<recursion limit reached>"  # where exactly the interpreter gives up depends on the caller's stack depth
-    return re.sub(r"0x[0-9a-f]{6,}", "0x?", text)
+    return text  # no other normalisation: a message that embeds an object address is not repeatable, and that is reported
 
 
 def observe_file(src, mapping, fmt):
